@@ -280,7 +280,7 @@ fn main() {
     );
     run.assume("expansion set from mc/core/src/model/brace.rs; the per-expansion verdict from the composed dewey/glob/plain models, falling back to the implementation's own non-brace matcher only for '**' and for bounds whose verdict hinges on a single letter's weight");
 
-    let l = run.pick(9, 11);
+    let l = run.pick(9, 12);
     let names = ab_names();
     run.bound(format!("(a) all {} strings of length <= {} over {:?}", seqs::count(5, l), l, CH));
     seqs::par_seqs(&run, "C04(a)", CH.len(), l, 3, |_| false, |s, t| {
